@@ -248,7 +248,11 @@ func TestSim(t *testing.T) {
 			}
 		}
 		// level L3: the same case against the real binary (fidelity: main.go, real exit status, real process)
-		if l3Every > 0 && l3Scenarios[scName] && SpokBin != "" && (idx/stride)%l3Every == 0 && res.first(prop) == nil && res.Abandoned == "" {
+		wantsL3 := false
+		if lw, ok := sc.(L3Wanter); ok {
+			wantsL3 = lw.WantsL3(c)
+		}
+		if l3Every > 0 && l3Scenarios[scName] && SpokBin != "" && ((idx/stride)%l3Every == 0 || wantsL3) && res.first(prop) == nil && res.Abandoned == "" {
 			w.Level = "L3"
 			w.Reset()
 			res3 := sc.Exec(w, c, prop)
